@@ -26,7 +26,11 @@ Every task is rewarded in the CPLEX formulation and in the Gurobi formulation wi
 `release_taskgraphs`.  With `release_taskgraphs` the Gurobi objective only rewards sink tasks:
 `unrewarded_counterexample` shows that the hypothesis `rewarded t` cannot be dropped (finding
 C14-TETRI-1).  `running_booking_counterexample` shows the gap between the planner's limits and
-the real ones: a RUNNING task is booked for its full runtime (finding C14-TETRI-2).
+the real ones: a RUNNING task is booked for its full runtime (finding C14-TETRI-2);
+`shifted_grid_counterexample` exhibits an infeasible model caused by a previously SCHEDULED task
+that must be re-placed on the grid of the current call (finding C14-TETRI-3);
+`parent_count_counterexample` shows that the precedence limit as coded (parents with variables =
+all graph parents) keeps a join with a COMPLETED parent unplaced (finding C14-TETRI-4).
 -/
 import ErdosVerif.Lemmas.TetriCheck
 namespace ErdosVerif.C14_Tetri
@@ -207,6 +211,97 @@ theorem running_booking_counterexample :
   refine ⟨hwf, hm, by decide, by decide, key, ?_⟩
   intro σ hs
   exact key _ (Tetri.tetri_sound hs hwf hm)
+
+/-- Finding C14-TETRI-3.  Non-retracting mode, discretisation 3, `now = 5`: `S` was SCHEDULED
+(runtime 3, 2 CPUs, deadline 10) by an earlier call, a RUNNING task holds 2 of the 3 CPUs until 7,
+`T` (1 CPU) is offered.  On the grid 5, 8, 11 of *this* call `S` can only start at 5 (8 + 3 > 10),
+where it collides with the RUNNING task. -/
+def exShift : Inst :=
+  { cplex := true, now := 5, disc := 3, planAheadOpt := 6
+    workers := [⟨"W0", "P0", [("CPU", 3)]⟩]
+    tasks := [⟨"T@G0", "T", 0, "G0", .released, 5, 10, [⟨2, [("CPU", 1)]⟩], 0, 0, 0⟩,
+              ⟨"S@G1", "S", 0, "G1", .scheduled, 3, 10, [⟨3, [("CPU", 2)]⟩], 0, 0, 0⟩,
+              ⟨"R@G2", "R", 0, "G2", .running, 5, 9, [⟨2, [("CPU", 2)]⟩], 0, 0, 2⟩]
+    nOffered := 1
+    nodes := [⟨"T@G0", "T", 0, "G0"⟩, ⟨"S@G1", "S", 0, "G1"⟩, ⟨"R@G2", "R", 0, "G2"⟩]
+    edges := []
+    enforceDeadlines := true, retract := false, releaseTaskgraphs := false }
+
+/-- **A SCHEDULED task that cannot be re-placed on the shifted grid makes the whole model
+infeasible**: no assignment satisfies `gen exShift`, `schedule()` answers the offered task `T`
+with "not placed", although `T` fits next to the RUNNING task right now. -/
+theorem shifted_grid_counterexample :
+    exShift.wf = true ∧ exShift.noModel = false ∧ (∀ σ, ¬ sat σ (gen exShift)) ∧
+    decodeFail exShift = [⟨0, .unplaced⟩] ∧
+    exShift.cellOk 0 0 0 0 = true ∧ exShift.runningLoad 0 0 "CPU" + exShift.req 0 0 "CPU" ≤ 3 := by
+  have hwf : exShift.wf = true := by decide
+  have hm : exShift.noModel = false := by decide
+  refine ⟨hwf, hm, ?_, by decide, by decide, by decide⟩
+  intro σ hs
+  have hv := Tetri.tetri_sound hs hwf hm
+  have hreq := hv.required 1 (by decide) (by decide) (by decide)
+  obtain ⟨c, hc⟩ := Option.isSome_iff_exists.mp hreq
+  obtain ⟨h1, h2, h3, h4⟩ := hv.wf 1 c (by decide) (by decide) hc
+  have hw : c.1 = 0 := by have : exShift.nW = 1 := by decide
+                          omega
+  have hs' : c.2.2 = 0 := by have : (exShift.task 1).nS = 1 := by decide
+                             omega
+  have hk : c.2.1 = 0 := by
+    have hn : exShift.nSlots = 3 := by decide
+    rw [hw, hs'] at h4
+    rcases Nat.lt_or_ge c.2.1 1 with h | h
+    · omega
+    · rcases Nat.lt_or_ge c.2.1 2 with h' | h'
+      · have : c.2.1 = 1 := by omega
+        rw [this] at h4
+        exact absurd h4 (by decide)
+      · have : c.2.1 = 2 := by omega
+        rw [this] at h4
+        exact absurd h4 (by decide)
+  have hrun := hv.running 2 (by decide) (by decide) (by decide)
+  have hcap := hv.capacity 0 (by decide) 0 (by decide) "CPU"
+  have hact : exShift.act = [0, 1, 2] := by decide
+  have hce : c = (0, 0, 0) := by
+    obtain ⟨a, b, d⟩ := c
+    simp only at hw hk hs'
+    simp [hw, hk, hs']
+  rw [hce] at hc
+  have hl : 4 ≤ load exShift (planOf exShift σ) 0 0 "CPU" := by
+    simp only [load, hact, List.map_cons, List.map_nil, nsum]
+    have e1 : demandAt exShift (planOf exShift σ) 0 0 "CPU" 1 = 2 := by
+      simp only [demandAt, hc]; decide
+    have e2 : demandAt exShift (planOf exShift σ) 0 0 "CPU" 2 = 2 := by
+      simp only [demandAt, hrun]; decide
+    omega
+  have : qty (exShift.worker 0).res "CPU" = 3 := by decide
+  omega
+
+/-- Finding C14-TETRI-4.  Gurobi formulation, join `J` with the parents `A` (COMPLETED, hence
+without variables) and `B` (offered in the same call). -/
+def exJoin : Inst :=
+  { cplex := false, now := 2, disc := 1, planAheadOpt := 9
+    workers := [⟨"W0", "P0", [("CPU", 2)]⟩]
+    tasks := [⟨"B@G", "B", 0, "G", .released, 2, 12, [⟨2, [("CPU", 1)]⟩], 0, 0, 0⟩,
+              ⟨"J@G", "J", 0, "G", .virtual, -1, 12, [⟨2, [("CPU", 1)]⟩], 0, 0, 0⟩]
+    nOffered := 2
+    nodes := [⟨"A@G", "A", 0, "G"⟩, ⟨"B@G", "B", 0, "G"⟩, ⟨"J@G", "J", 0, "G"⟩]
+    edges := [("A@G", "J@G"), ("B@G", "J@G")]
+    enforceDeadlines := true, retract := false, releaseTaskgraphs := false }
+
+/-- **The all-parents-placed rows count parents without variables**: `J` has one parent with
+variables but two graph parents, so no valid plan — hence no feasible point — ever places `J`,
+although `J` is rewarded and all its cells from slot `2 + 2 + 1` on are allowed. -/
+theorem parent_count_counterexample :
+    exJoin.wf = true ∧ exJoin.noModel = false ∧ exJoin.rewarded 1 = true ∧
+    exJoin.parentVars 1 = [0] ∧ exJoin.nParents 1 = 2 ∧ exJoin.cellOk 1 0 3 0 = true ∧
+    (∀ plan, ValidPlan exJoin plan → plan.get 1 = none) := by
+  refine ⟨by decide, by decide, by decide, by decide, by decide, by decide, ?_⟩
+  intro plan hv
+  cases hp : plan.get 1 with
+  | none => rfl
+  | some c =>
+    have := (hv.prec (by decide) 1 c (by decide) (by decide) hp).1 (by decide)
+    exact absurd this (by decide)
 
 /-- Non-vacuity of `tetri_maximal`: in `exRun` the all-unplaced point is feasible, optimal
 (`OPT` = its own objective: the constant of the RUNNING task) and indeed nothing can be added. -/
